@@ -58,7 +58,7 @@ func init() {
 	register(&Prop{
 		ID: "C18", Level: "exploration", Race: true,
 		RaceFrom: func(tier string) int { a, b, _ := c18Counts(tier); return a + b },
-		Rule:     "failing-visit cases (enumerated): for sizes 3 and 9 on a flushed+evicted / re-opened file, each of VisitItemsAscend, VisitItemsDescend, IterateAscend, IterateDescend runs with the k-th file read failing (every k up to 2n+2; outright error or io.EOF), the consumer reads until Next() returns false and then closes once, twice or not at all; afterwards Next() must stay false, the producer goroutine must have exited and the version pin must be back (hook refs == 1, public counters balanced after one more mutation). iterator cases (enumerated): EVERY (collection size n in 0..6, direction, target class {below all, a present key, between keys, above all}, consumer stop position p in 0..n+1, tail in {Close; Close,Close; Close,Next; Next-until-false,Next; nothing after Next returned false; Close before the first Next}) x 3 cache states, plus sampled cases at n = 50 and 500. Monitors: the items delivered before the stop equal the model's range prefix; after Close() or exhaustion Next() returns false and Err() is nil; the producer goroutine (stack inside Collection.iterate) is gone - observed via runtime stacks, yielding first, wall-clock only as a backstop; the version it pinned is released (hook: refs of the current version back to 1 and not chained; public cross-check: a following mutation makes MkRootNodeLocs-FreeRootNodeLocs return to its baseline). Re-entrancy cases (enumerated): outer in {VisitItemsAscend, Descend, AscendEx, AscendBlockEx, Random, iterator loop} x inner in {Get, GetItem, MinItem, MaxItem, GetTotals, nested visit, nested iterator, Snapshot+read+Close, Set, Delete, Flush, EvictSomeItems, AllocStats, Len, GetCollectionNames, SetCollection of a new name, SetCollection / RemoveCollection of another collection} x callback position {first, middle, last} x cache state; the inner call runs inside the visitor callback on the same goroutine (mutations included: this goroutine is the mutator); the outer sequence must be that of the version pinned at its start, the inner results must match the current model, and the whole case must finish: a watchdog goroutine dumps all stacks if it does not, and 'every goroutine of the case parked in sync/channel operations' is reported as deadlock. Free-running cases (race-detector build): a mutator, a flusher and readers whose visitor callbacks and iterator loops call read operations (incl. AllocStats and nested visits) run in real parallelism with seeded delays at the iter.produce / visit.node hooks and GOMAXPROCS in {1, 2, all cores}; the same termination, goroutine-exit and no-deadlock monitors apply. Non-trivial = iterator abandoned before exhaustion or closed twice / inner call executed at least once; distinct = the enumerated tuple.",
+		Rule:     "failing-visit cases (enumerated): for sizes 3 and 9 on a flushed+evicted / re-opened file, each of VisitItemsAscend, VisitItemsDescend, IterateAscend, IterateDescend runs with the k-th file read failing (every k up to 2n+2; outright error or io.EOF), the consumer reads until Next() returns false and then closes once, twice or not at all; afterwards Next() must stay false, the producer goroutine must have exited and the version pin must be back (hook refs == 1, public counters balanced after one more mutation). iterator cases (enumerated): EVERY (collection size n in 0..6, direction, target class {below all, a present key, between keys, above all}, consumer stop position p in 0..n+1, tail in {Close; Close,Close; Close,Next; Next-until-false,Next; nothing after Next returned false; Close before the first Next}) x 3 cache states, plus sampled cases at n = 50 and 500. Monitors: the items delivered before the stop equal the model's range prefix; after Close() or exhaustion Next() returns false and Err() is nil; the producer goroutine (stack inside Collection.iterate) is gone - observed via runtime stacks, yielding first, wall-clock only as a backstop; the version it pinned is released (hook: refs of the current version back to 1 and not chained; public cross-check: a following mutation makes MkRootNodeLocs-FreeRootNodeLocs return to its baseline). Re-entrancy cases (enumerated): outer in {VisitItemsAscend, Descend, AscendEx, AscendBlockEx, Random, iterator loop} x inner in {Get, GetItem, MinItem, MaxItem, GetTotals, nested visit, nested iterator, Snapshot+read+Close, Set, Delete, Flush, EvictSomeItems, AllocStats, Len, GetCollectionNames, SetCollection of a new name, SetCollection / RemoveCollection of another collection} x callback position {first, middle, last} x cache state; the inner call runs inside the visitor callback on the same goroutine (mutations included: this goroutine is the mutator); the outer sequence must be that of the version pinned at its start, the inner results must match the current model, and the whole case must finish: a watchdog goroutine dumps all stacks if it does not, and 'every goroutine of the case parked in sync/channel operations' is reported as deadlock. Free-running cases (race-detector build): a mutator, a flusher and readers whose visitor callbacks and iterator loops call read operations (incl. AllocStats and nested visits) run in real parallelism with seeded delays at the iter.produce / visit.node hooks; the child processes of these batches are started with GOMAXPROCS = 1, 2 or all cores in turn; the same termination, goroutine-exit and no-deadlock monitors apply. Non-trivial = iterator abandoned before exhaustion or closed twice / inner call executed at least once; distinct = the enumerated tuple.",
 		Assumptions: []string{
 			"mutations inside callbacks only from the goroutine that is the store's single mutator",
 			"'all interleavings of consumer and producer' are explored by repetition with delays, not exhausted",
@@ -476,12 +476,10 @@ func runC18Reentrant(ctx *Ctx, idx, k int, r *gen.R) Result {
 
 // runC18Free: real parallelism; callbacks and iterator loops calling read operations while a mutator and a flusher run.
 func runC18Free(ctx *Ctx, idx int, r *gen.R) Result {
-	// vary the degree of real parallelism: 1 (pure time slicing), 2 and all cores
-	procs := []int{1, 2, 0}[(idx/3)%3]
-	if procs > 0 {
-		defer runtime.GOMAXPROCS(runtime.GOMAXPROCS(procs))
-	}
-	ctx.Stats[fmt.Sprintf("c18.free-running/gomaxprocs=%d", procs)]++
+	// the degree of real parallelism varies with the child process: the orchestrator starts the
+	// race-built batches with GOMAXPROCS=1 (pure time slicing), 2 or all cores in turn (set in the
+	// environment, not changed at run time: resizing under the race detector once crashed the runtime)
+	ctx.Stats[fmt.Sprintf("c18.free-running/gomaxprocs=%d", runtime.GOMAXPROCS(0))]++
 	state := idx % 3
 	e, keys := c18Env(idx, 12, state, r)
 	c := e.H["t"]
